@@ -288,6 +288,10 @@ pub struct Cfg {
     pub callback: u8,
     /// use the reduced operation set (policy-relevant mutators only)
     pub lean_ops: bool,
+    /// which builder path constructs the cache: 0 = sizes first, hashers last; 1 = hashers first
+    /// (from `Default`), sizes/ratios last — so that every setter is exercised after every other
+    #[serde(default)]
+    pub builder_path: u8,
 }
 
 impl Cfg {
@@ -308,6 +312,7 @@ impl Cfg {
             with_clone: false,
             callback: 0,
             lean_ops: false,
+            builder_path: 0,
         }
     }
     pub fn label(&self) -> String {
@@ -330,6 +335,9 @@ impl Cfg {
         }
         if self.lean_ops {
             s += "/lean";
+        }
+        if self.builder_path != 0 {
+            s += &format!("/builder_path={}", self.builder_path);
         }
         s
     }
